@@ -2,7 +2,7 @@
 # tools_mut.sh <prop> <file-in-repo> <sed-expr> : apply a one-line change to a scratch worktree of /repo, run the quick check, undo.
 prop=$1; f=$2; expr=$3
 /verif/tools_scratch.sh
-export VERIF_REPO=/tmp/seedrepo VERIF_EVIDENCE=/tmp/seed_evidence
-cd /tmp/seedrepo && sed -i "$expr" "$f" && git diff --stat | tail -1
+export VERIF_REPO=${SEEDREPO:-/tmp/seedrepo} VERIF_EVIDENCE=${SEEDREPO:-/tmp/seedrepo}_evidence
+cd ${SEEDREPO:-/tmp/seedrepo} && sed -i "$expr" "$f" && git diff --stat | tail -1
 cd /verif && ./check $prop quick 2>/dev/null | grep -E "VIOLATION|KNOWN|OK |INCONCLUSIVE|label" | head -8; echo "exit=$?"
-cd /tmp/seedrepo && git checkout -- "$f"
+cd ${SEEDREPO:-/tmp/seedrepo} && git checkout -- "$f"
